@@ -134,7 +134,7 @@ func main() {
 	pkgs := load(repo)
 	var b strings.Builder
 	b.WriteString("(* GENERATED from the Go source by /verif/translator on every check run — do not edit. *)\n")
-	b.WriteString("From Coq Require Import List ZArith NArith.\nImport ListNotations.\nOpen Scope Z_scope.\n\n")
+	b.WriteString("From Coq Require Import List ZArith NArith.\nImport ListNotations.\nLocal Open Scope Z_scope.\n\n")
 	b.WriteString("Inductive lit := LInt (z : Z) | LStr (s : list N) | LBool (b : bool) | LOther.\n\n")
 	// (a) package-level constants
 	for _, pn := range []string{"client", "state"} {
@@ -176,6 +176,31 @@ func main() {
 			}
 			d := digest(pi, pi.funcs[n])
 			fmt.Fprintf(&b, "Definition lits_%s_%s : list lit :=\n  [%s].\n", pn, coqIdent(n), strings.Join(d, ";\n   "))
+		}
+	}
+	// (c) package-level variable initialisers: literal digests (e.g. tagsReplacer, mode tables)
+	for _, pn := range []string{"client", "state"} {
+		pi := pkgs[pn]
+		if pi == nil {
+			continue
+		}
+		for _, f := range pi.pkg.Syntax {
+			for _, d := range f.Decls {
+				gd, ok := d.(*ast.GenDecl)
+				if !ok || gd.Tok != token.VAR {
+					continue
+				}
+				for _, sp := range gd.Specs {
+					vs := sp.(*ast.ValueSpec)
+					for i, nm := range vs.Names {
+						if i >= len(vs.Values) || nm.Name == "_" {
+							continue
+						}
+						fake := &ast.FuncDecl{Body: &ast.BlockStmt{List: []ast.Stmt{&ast.ExprStmt{X: vs.Values[i]}}}}
+						fmt.Fprintf(&b, "Definition varlits_%s_%s : list lit :=\n  [%s].\n", pn, coqIdent(nm.Name), strings.Join(digest(pi, fake), ";\n   "))
+					}
+				}
+			}
 		}
 	}
 	writeIfChanged(filepath.Join(outDir, "Consts.v"), b.String())
